@@ -14,16 +14,25 @@ from .lib import Lib
 class Inputs:
     """named symbolic inputs of a harness run (stable names across paths)"""
 
-    def __init__(self, ex):
+    def __init__(self, ex, concrete=None):
         self.ex = ex
         self.vars = {}
+        self.concrete = concrete
 
     def real(self, name):
+        if self.concrete is not None:
+            return Fraction(self.concrete[name])
         v = z3.Real(name)
         self.vars[name] = v
         return v
 
     def int(self, name, ty=None):
+        if self.concrete is not None:
+            v = int(self.concrete[name])
+            if ty and not in_range(v, ty):
+                from .exec import Infeasible
+                raise Infeasible()
+            return v
         v = z3.Int(name)
         self.vars[name] = v
         if ty:
@@ -31,6 +40,8 @@ class Inputs:
         return v
 
     def bool(self, name):
+        if self.concrete is not None:
+            return bool(self.concrete[name])
         v = z3.Bool(name)
         self.vars[name] = v
         return v
@@ -85,6 +96,15 @@ class Harness:
     def case(self, ctx, model_vals, label):
         return {'harness': self.name, 'label': label, 'inputs': {k: jsonable(v) for k, v in model_vals.items()}}
 
+    # ---- native confirmation (replay) -------------------------------------------------
+    def native(self, inputs, label):
+        """requests for the native observer that exercise the same inputs (kernel first, query text after)"""
+        return []
+
+    def judge(self, inputs, label, observations):
+        """-> (reproduced: True | False | 'kernel-only', description)"""
+        return False, 'no judge'
+
 
 class PathResult:
     def __init__(self):
@@ -121,7 +141,7 @@ def run_path(prog, lib, h, prefix, timeout_ms, dump_smt=None):
     stubs = [(re.compile(p), f, lbl) for (p, f, lbl) in h.stubs]
     ex = Executor(prog, lib, prefix=prefix, stubs=stubs, loop_bound=h.loop_bound, query_timeout_ms=timeout_ms)
     pr = PathResult()
-    I = Inputs(ex)
+    I = Inputs(ex, getattr(h, '_concrete', None))
     try:
         args, ctx = h.build(ex, I)
         ex.inputs = I
@@ -183,6 +203,27 @@ def run_path(prog, lib, h, prefix, timeout_ms, dump_smt=None):
                     ex.solver.pop()
             ms = (time.time() - t0) * 1000
             pr.obligations.append((label, verdict, ms))
+            if verdict == 'sat' and hasattr(h, 'prefer'):
+                # steer towards small, readable counterexamples: add preferences greedily while still sat
+                ex.solver.push()
+                if not isinstance(phi, bool):
+                    ex.solver.add(z3.Not(zbool(phi)))
+                for pref in h.prefer(ctx):
+                    ex.solver.push()
+                    ex.solver.add(pref)
+                    if ex.solver.check() == z3.sat:
+                        model = ex.solver.model()
+                        # keep the preference
+                        continue
+                    ex.solver.pop()
+                ex.solver.check()
+                try:
+                    model = ex.solver.model()
+                except z3.Z3Exception:
+                    pass
+                # unwind all pushes made above
+                while ex.solver.num_scopes() > 0:
+                    ex.solver.pop()
             if verdict == 'sat':
                 vals = {k: model_value(model, v) for k, v in I.vars.items()} if model is not None else {}
                 pr.violations.append((label, h.case(ctx, vals, label)))
